@@ -17,26 +17,32 @@ import (
 )
 
 // Concurrent histories of the thread-safe set checked for linearizability (C16, last clause):
-// 2-4 goroutines x <= 4 operations on <= 2 sets over a 4-value universe; every completed history
+// 2-4 goroutines x <= 4 operations on <= 2 sets over a 5-value universe; every completed history
 // must equal running the same operations one at a time in an order consistent with real time.
 // The schedule is perturbed through the verif hook (yields / short sleeps around lock events).
 
+const linNV = 5 // values 0..4; value 4 is also the filler of long argument lists
+
 type linOp struct {
 	g          int
-	kind       string // add rm has card slice clear union inter diff eq sub sup sym clone iter str pow cart
+	kind       string // add rm has has2 card slice clear union inter diff eq sub sup sym clone iter str pow cart
 	s, t       int    // set index, second operand
 	v          int
+	w, n       int // has2: Contains(v, 4 x n, w)
 	res        string
 	start, end int64
 }
 
 func (o linOp) String() string {
+	if o.kind == "has2" {
+		return fmt.Sprintf("g%d:Contains(s%d: v%d, %d times v4, v%d)=%s@[%d,%d]", o.g, o.s, o.v, o.n, o.w, o.res, o.start, o.end)
+	}
 	return fmt.Sprintf("g%d:%s(s%d,t%d,v%d)=%s@[%d,%d]", o.g, o.kind, o.s, o.t, o.v, o.res, o.start, o.end)
 }
 
 func maskStr(m uint8) string {
 	var p []string
-	for v := 0; v < 4; v++ {
+	for v := 0; v < linNV; v++ {
 		if m>>uint(v)&1 == 1 {
 			p = append(p, strconv.Itoa(v))
 		}
@@ -67,9 +73,15 @@ func seqApply(st [2]uint8, o linOp) ([2]uint8, string) {
 			return st, "1"
 		}
 		return st, "0"
+	case "has2":
+		ok := a&bit != 0 && a&(uint8(1)<<uint(o.w)) != 0 && (o.n == 0 || a&(1<<4) != 0)
+		if ok {
+			return st, "1"
+		}
+		return st, "0"
 	case "card":
 		n := 0
-		for v := 0; v < 4; v++ {
+		for v := 0; v < linNV; v++ {
 			n += int(a >> uint(v) & 1)
 		}
 		return st, strconv.Itoa(n)
@@ -110,7 +122,7 @@ func seqApply(st [2]uint8, o linOp) ([2]uint8, string) {
 
 func popcount(m uint8) int {
 	n := 0
-	for v := 0; v < 4; v++ {
+	for v := 0; v < linNV; v++ {
 		n += int(m >> uint(v) & 1)
 	}
 	return n
@@ -119,7 +131,7 @@ func popcount(m uint8) int {
 func setMaskStr(s mapset.Set) string {
 	var m uint8
 	for _, e := range s.ToSlice() {
-		if v, ok := e.(int); ok && v >= 0 && v < 4 {
+		if v, ok := e.(int); ok && v >= 0 && v < linNV {
 			m |= 1 << uint(v)
 		}
 	}
@@ -139,6 +151,14 @@ func runRealOp(sets [2]mapset.Set, o *linOp) {
 		o.res = "-"
 	case "has":
 		o.res = b2s(a.Contains(o.v))
+	case "has2":
+		args := make([]any, 0, o.n+2)
+		args = append(args, o.v)
+		for k := 0; k < o.n; k++ {
+			args = append(args, 4)
+		}
+		args = append(args, o.w)
+		o.res = b2s(a.Contains(args...))
 	case "card":
 		o.res = strconv.Itoa(a.Cardinality())
 	case "slice":
@@ -162,7 +182,7 @@ func runRealOp(sets [2]mapset.Set, o *linOp) {
 	case "iter":
 		var m uint8
 		for e := range a.Iter() {
-			if v, ok := e.(int); ok && v >= 0 && v < 4 {
+			if v, ok := e.(int); ok && v >= 0 && v < linNV {
 				m |= 1 << uint(v)
 			}
 		}
@@ -171,7 +191,7 @@ func runRealOp(sets [2]mapset.Set, o *linOp) {
 		// the printed form lists the members; read them back
 		var m uint8
 		txt := a.String()
-		for v := 0; v < 4; v++ {
+		for v := 0; v < linNV; v++ {
 			if strings.Contains(txt, strconv.Itoa(v)) {
 				m |= 1 << uint(v)
 			}
@@ -227,7 +247,7 @@ func linearizable(init [2]uint8, ops []linOp) bool {
 }
 
 // all 18 operations of the interface (writers weighted up)
-var linKinds = []string{"add", "add", "add", "add", "rm", "rm", "rm", "has", "has", "card", "slice", "clear", "union", "inter", "diff", "eq", "sub",
+var linKinds = []string{"add", "add", "add", "add", "rm", "rm", "rm", "has", "has", "has2", "has2", "card", "slice", "clear", "union", "inter", "diff", "eq", "sub",
 	"sup", "sym", "sym", "clone", "iter", "str", "pow", "cart"}
 
 func linHistories(ps *propSink, count int, seed int64) string {
@@ -250,8 +270,8 @@ func linHistories(ps *propSink, count int, seed int64) string {
 		sets := [2]mapset.Set{mapset.NewSet(), mapset.NewSet()}
 		var init [2]uint8
 		for s := 0; s < 2; s++ {
-			for v := 0; v < 4; v++ {
-				if rng.Intn(3) == 0 {
+			for v := 0; v < linNV; v++ {
+				if rng.Intn(3) == 0 || (v == 4 && rng.Intn(4) != 0) {
 					sets[s].Add(v)
 					init[s] |= 1 << uint(v)
 				}
@@ -286,7 +306,25 @@ func linHistories(ps *propSink, count int, seed int64) string {
 				if rng.Intn(4) == 0 {
 					o.v = rng.Intn(4)
 				}
+				if o.kind == "has2" {
+					// a long argument list: the deciding values at its two ends, value 4 in between
+					o.w = rng.Intn(4)
+					o.n = []int{0, 1, 255, 256, 300, 1100, 20000}[rng.Intn(7)]
+				}
 				progs[g] = append(progs[g], o)
+			}
+		}
+		// a reader with a long list meets a writer that takes its first value away and puts its last one in
+		for g := range progs {
+			for _, o := range progs[g] {
+				if o.kind == "has2" && o.v != o.w && rng.Intn(2) == 0 {
+					g2 := (g + 1) % ng
+					progs[g2] = []linOp{{g: g2, kind: "rm", s: o.s, t: o.s, v: o.v}, {g: g2, kind: "add", s: o.s, t: o.s, v: o.w}}
+					if rng.Intn(2) == 0 {
+						progs[g2] = []linOp{{g: g2, kind: "add", s: o.s, t: o.s, v: o.w}, {g: g2, kind: "rm", s: o.s, t: o.s, v: o.v}}
+					}
+					break
+				}
 			}
 		}
 		var clock atomic.Int64
